@@ -584,9 +584,17 @@ def rule_r3(ctx) -> List[R.Inst]:
                 v_.args[0] = a[0].value.args[0]       # the record list itself stays a name (its role is decided by _sinks)
                 a = [ast.copy_location(ast.Assign(targets=a[0].targets, value=v_), a[0])]
                 ast.fix_missing_locations(a[0])
+        def _records(e):
+            """the record list handed over: a name, or `name if <name non-empty> else []` (an empty collection handed over as [])"""
+            if isinstance(e, ast.IfExp):
+                arms = [x for x in (e.body, e.orelse) if not (isinstance(x, (ast.List, ast.Tuple)) and not x.elts)]
+                if len(arms) == 1 and isinstance(arms[0], ast.Name) and any(isinstance(x, ast.Name) and x.id == arms[0].id for x in ast.walk(e.test)):
+                    return arms[0]
+            return e
         if len(a) == 1 and isinstance(a[0].value, ast.Call) and call_name(a[0].value) == "from_dict" and \
                 unparse(a[0].value.func.value) in (f"type({p0}.{slot})", f"{p0}.{slot}.__class__") and \
-                a[0].value.args and isinstance(a[0].value.args[0], ast.Name) and _sinks(fn).get(a[0].value.args[0].id) == slot:
+                a[0].value.args and isinstance(_records(a[0].value.args[0]), ast.Name) and _sinks(fn).get(_records(a[0].value.args[0]).id) in (slot, None) and \
+                (_sinks(fn).get(_records(a[0].value.args[0]).id) == slot or _records(a[0].value.args[0]).id == slot):
             # (which records the list named there holds — hits without, holds with a length — is decided per path by R1)
             insts.append(R.ok(rid, key, file, a[0].lineno, idiom=f"type(m.{slot}).from_dict({slot})"))
         else:
